@@ -620,3 +620,37 @@ theorem soundE_succ : SoundE env (f + 1) := by
 
 end
 end Interp
+
+namespace Interp
+open Typing
+
+theorem sound_all (env : Env) : ∀ f, SoundE env f ∧ SoundS env f ∧ SoundI env f ∧ SoundM env f
+  | 0 => by
+    refine ⟨?_, ?_, ?_, ?_⟩
+    · intro i st st' tr _ hev _; simp [Spec.eval] at hev
+    · intro is st st' tr hw hev hty
+      cases is with
+      | nil => simp [Spec.evalSeq] at hev; subst hev; simp [typeSeq] at hty; subst hty; exact ⟨hw, rfl⟩
+      | cons i is => simp [Spec.evalSeq] at hev
+    · intro body xs st st' t _ hw _ hev
+      cases xs with
+      | nil => simp [Spec.evalIter] at hev; subst hev; exact ⟨hw, rfl⟩
+      | cons x xs => simp [Spec.evalIter] at hev
+    · intro body isMap xs st ys st' t t' _ hw _ _ hev
+      cases xs with
+      | nil => simp [Spec.evalMap] at hev; obtain ⟨rfl, rfl⟩ := hev; exact ⟨by simp, hw, rfl, fun _ => rfl⟩
+      | cons x xs => simp [Spec.evalMap] at hev
+  | f + 1 =>
+    have ⟨hE, hS, hI, hM⟩ := sound_all env f
+    ⟨soundE_succ env f hE hS hI hM, soundS_succ env f hE hS, soundI_succ env f hE hI, soundM_succ env f hE hM⟩
+
+/-- **type preservation of the reference semantics** -/
+theorem preservation (env : Env) (fuel : Nat) (i : Instr) (st st' : List Val) (ts : List Ty) (tr : TRes)
+    (hst : StackTy st ts) (hty : typeInstr false i ts = some tr) (hev : Spec.eval false env fuel i st = .ok st') :
+    ∃ ts', tr = .ok ts' ∧ StackTy st' ts' := by
+  obtain ⟨hw, hm⟩ := stackTy_iff.mp hst
+  subst hm
+  obtain ⟨h1, h2⟩ := (sound_all env fuel).1 i st st' tr hw hev hty
+  exact ⟨st'.map typeOf, h2, stackTy_iff.mpr ⟨h1, rfl⟩⟩
+
+end Interp
